@@ -176,7 +176,15 @@ func (o *c06) End(x *hctx) string {
 		for c := int64(0); c <= total; c += 512 {
 			add(c)
 		}
+		must := map[int64]bool{}
 		for _, m := range sc.Members {
+			// inside the last header block of a member (behind its PAX data)
+			for _, c := range []int64{m.DataOff - 1, m.DataOff - 200, m.DataOff - 511} {
+				if c > m.Off {
+					add(c)
+					must[c] = true
+				}
+			}
 			add(m.Off + 1)
 			add(m.Off + 511)
 			add(m.DataOff)
@@ -199,6 +207,9 @@ func (o *c06) End(x *hctx) string {
 			}
 			for b := range o.boundaries {
 				keep[b] = true
+			}
+			for c := range must {
+				keep[c] = true
 			}
 			keep[total] = true
 			cutset = keep
@@ -303,9 +314,30 @@ func TestC06(t *testing.T) {
 		g.Avoid = avoidFor("C06")
 		g.MaxSize = 6000
 		n := rapid.IntRange(2, *maxSteps).Draw(t, "nsteps")
+		// in a sixth of the cases the history ends with an entry whose (very long) name embeds a
+		// well-formed record that deletes or renames an earlier, completely written entry: an
+		// indexer that resynchronises into the middle of a torn record must not act on it
+		var epilogue []hist.Step
+		if rapid.IntRange(0, 5).Draw(t, "injection") == 0 {
+			cfg.Compression, cfg.Encryption, cfg.Signature = "", "", ""
+			victim := "/victim.txt"
+			evil := "/" + hist.InjectionName(victim, rapid.SampledFrom([]string{"DELETE", "MOVE"}).Draw(t, "inject-action"))
+			epilogue = []hist.Step{{Op: "create", Path: victim, Slot: 2}, {Op: "write", Slot: 2, Size: 300, Dist: 3, Seed: 77}, {Op: "close", Slot: 2},
+				{Op: "create", Path: evil, Slot: 2}, {Op: "close", Slot: 2}}
+			n = rapid.IntRange(0, 3).Draw(t, "nsteps-before-injection")
+		}
 		sharedProbe.Reset()
+		epi := 0
 		runCase(t, "C06", cfg, nil, &c06{probe: sharedProbe}, world.Opts{Probe: sharedProbe}, func(x *hctx, i int) (hist.Step, bool) {
 			if i >= n {
+				if len(epilogue) > 0 && x.mr.Slots[2] != nil && epi == 0 {
+					return hist.Step{Op: "close", Slot: 2}, true // free the slot the epilogue uses
+				}
+				if epi < len(epilogue) {
+					x.label("has-record-injection-name")
+					epi++
+					return epilogue[epi-1], true
+				}
 				return hist.Step{}, false
 			}
 			return g.Draw(t, x.mr), true
